@@ -16,8 +16,8 @@ Print Assumptions C12_same_coordinates.
 (* stage 3: every edit of the script is accounted for, and the engine only adds session marks *)
 Theorem C12_engine : forall d author ts edits orc,
   let nd := normalize_doc d in
-  let '(d', ap, sk, out) := apply_edits d author ts edits orc in
-  (wf_ids nd -> RelG (scan_ids nd) (next_comment_id nd) (d_next_uid nd) nd d') /\ (out = 0 -> ap + sk = length edits).
+  let '(d', ap, sk, out, nn) := apply_edits d author ts edits orc in
+  (wf_ids nd -> nn = 0 -> RelG (scan_ids nd) (next_comment_id nd) (d_next_uid nd) nd d') /\ (out = 0 -> ap + sk = length edits).
 Proof. exact engine_contract. Qed.
 Print Assumptions C12_engine.
 (* stage 4: accept-all is the accepted view of the tape *)
